@@ -161,6 +161,13 @@ def run_job(job) -> Dict[str, Any]:
     cfg.setdefault('record_blocks', False)
     if 'interrupt_board' in cfg:
         cfg['interrupt'] = interrupt_point(cfg)
+    if cfg.get('twice'):
+        # the same configuration objects (list of board settings) serve a
+        # second session, e.g. the other table of a match: the first session
+        # must not have consumed or altered them
+        first = run_session(cfg)
+        cfg['settings_obj'] = first['settings_obj']
+        cfg['seed'] = cfg['seed'] + 1
     res = run_session(cfg)
     e = session_event(tid, cfg, res, kind, completed)
     if cfg.get('want_points'):
@@ -198,7 +205,8 @@ def normal_jobs(r, n: int, prefix: str, max_boards: int = 3) -> List[tuple]:
                            'play': 'revoke' if k % 5 == 2 else 'legal'})
         cfg = {'boards': boards, 'seed': r.randrange(1 << 30), 'styles': styles,
                'vary': k % 4 != 3, 'policy_spec': POLICIES[k % len(POLICIES)],
-               'teams': (rand_id(r).strip() or 'a', rand_id(r).strip() or 'b')}
+               'teams': (rand_id(r).strip() or 'a', rand_id(r).strip() or 'b'),
+               'twice': k % 8 == 6}
         jobs.append((f'{prefix}{k}', cfg, 'normal', None))
     return jobs
 
@@ -334,6 +342,10 @@ def admission_jobs(r, n: int, prefix: str) -> List[tuple]:
         ns, ew = (rand_id(r).strip() or 'n'), (rand_id(r).strip() or 'e')
         if ns == ew and q % 2:
             ew += 'x'
+        if q % 7 == 3:
+            ns = ''                    # the empty string is a team name too
+        if q % 7 == 5:
+            ew = ''
         good = [{'kind': 'client', 'seat': s, 'team': (ns, ew)[s % 2]} for s in range(4)]
         r.shuffle(good)
         seq: List[Dict[str, Any]] = []
@@ -348,7 +360,7 @@ def admission_jobs(r, n: int, prefix: str) -> List[tuple]:
                 team = (ns, ew)[s % 2]
                 if kind == 'taken' and seated:
                     s = r.choice(sorted(seated))
-                    team = seated[s] if r.random() < 0.5 else rand_id(r).strip() or 'z'
+                    team = seated[s] if r.random() < 0.5 else (rand_id(r).strip() or 'z')
                     ver = 18
                 elif kind == 'team' and any(((p + 2) % 4) not in seated for p in seated):
                     p = next(p for p in seated if ((p + 2) % 4) not in seated)
